@@ -39,7 +39,7 @@ func checkC16(c *Ctx) error {
 		for j := 0; j < k; j++ {
 			kind := gen.DefectKinds[r.Intn(len(gen.DefectKinds))]
 			if r.Intn(2) == 0 {
-				kind = []string{"missing-param", "missing-service"}[r.Intn(2)]
+				kind = []string{"missing-param", "missing-service", "missing-mixed"}[r.Intn(3)]
 			}
 			gen.Inject(r, conf, kind, j)
 			kinds = append(kinds, kind)
